@@ -668,3 +668,151 @@ def share_spec_pool(occs, extra=None, pool="abc"):
             raise ValueError("duplicate name")
         sch[k] = copy.deepcopy(v)
     return s
+# ---- C17: documents with several sites (component structs, inline objects, parameter structs) under a usage / target ----
+def _dflt_obj_schema(fields, deny=False, ann=None):
+    """object schema of a site: direct members (k = m) and inline object members (k = obj, plain or as array items)"""
+    o = {"type": "object", "properties": {}}
+    req = []
+    for f in fields:
+        if f["k"] == "m":
+            sch = dflt_member_schema(f["m"])
+            for k, v in (f.get("mann") or {}).items():
+                sch[k] = v
+            if f["m"].get("required"):
+                req.append(f["name"])
+        elif f["k"] == "obj":
+            sch = _dflt_obj_schema(f["fields"], f.get("deny"), f.get("ann"))
+            if f.get("wrap") == "array":
+                sch = {"type": "array", "items": sch}
+            if f.get("required"):
+                req.append(f["name"])
+        else:
+            raise ValueError("field kind")
+        o["properties"][f["name"]] = sch
+    if req:
+        o["required"] = req
+    if deny:
+        o["additionalProperties"] = False
+    for k, v in (ann or {}).items():
+        o[k] = v
+    return o
+
+
+def dflt_doc_spec(d):
+    """d: {comps:[{name, usage: req|resp|both|none, deny?, fields:[F]}], params:[{name, loc: query|header, m}], mode, builders}
+    every component gets its own operation `op<Name>` (POST /<name>) that uses it as the usage says; the parameters
+    belong to one more operation `pq`."""
+    s = {"openapi": "3.1.0", "info": {"title": "t", "version": "1"}, "paths": {}, "components": {"schemas": {}}}
+    ref = lambda n: {"$ref": "#/components/schemas/" + n}
+    names = [c["name"] for c in d.get("comps", [])]
+    if len(set(names)) != len(names):
+        raise ValueError("duplicate component")
+    for c in d.get("comps", []):
+        fn = [f["name"] for f in c["fields"]]
+        if len(set(fn)) != len(fn):
+            raise ValueError("duplicate member")
+        s["components"]["schemas"][c["name"]] = _dflt_obj_schema(c["fields"], c.get("deny"), c.get("ann"))
+        for f in c["fields"]:
+            if f["k"] == "m" and "enum" in f["m"]["kind"] and f["m"].get("ref"):
+                s["components"]["schemas"]["Color"] = {"type": "string", "enum": list(f["m"]["kind"]["enum"])}
+        u = c["usage"]
+        if u == "none":
+            continue
+        op = {"operationId": "op" + c["name"], "responses": {"200": {"description": "ok"}}}
+        if u in ("req", "both"):
+            op["requestBody"] = {"required": True, "content": {"application/json": {"schema": ref(c["name"])}}}
+        if u in ("resp", "both"):
+            op["responses"]["200"]["content"] = {"application/json": {"schema": ref(c["name"])}}
+        if u not in ("req", "resp", "both"):
+            raise ValueError("usage")
+        s["paths"]["/" + c["name"].lower()] = {"post": op}
+    ps = d.get("params") or []
+    if ps:
+        params = []
+        for p in ps:
+            if p["loc"] not in ("query", "header"):
+                raise ValueError("param loc")
+            o = {"name": p["name"], "in": p["loc"], "schema": dflt_member_schema(p["m"])}
+            if p["m"].get("required"):
+                o["required"] = True
+            params.append(o)
+        if len({(p["name"], p["loc"]) for p in ps}) != len(ps):
+            raise ValueError("duplicate parameter")
+        s["paths"]["/pq"] = {"get": {"operationId": "pq", "parameters": params, "responses": {"200": {"description": "ok"}}}}
+    if not s["paths"] and not any(c["usage"] == "none" for c in d.get("comps", [])):
+        raise ValueError("empty document")
+    return s
+
+
+def dflt_doc_sites(d):
+    """the sites of a document in walk order: [{at:[struct, field…], kind: schema|query|header, comp, fields:[F(k=m)…]}]"""
+    out = []
+    for c in d.get("comps", []):
+        out.append({"at": [c["name"]], "kind": "schema", "comp": c["name"], "inline": False,
+                    "fields": [f for f in c["fields"] if f["k"] == "m"], "deny": bool(c.get("deny")), "ann": c.get("ann") or {}})
+        for f in c["fields"]:
+            if f["k"] == "obj":
+                if any(g["k"] != "m" for g in f["fields"]):
+                    raise ValueError("inline objects hold direct members only")
+                out.append({"at": [c["name"], f["name"]], "kind": "schema", "comp": c["name"], "inline": True,
+                            "fields": f["fields"], "deny": bool(f.get("deny")), "ann": f.get("ann") or {}})
+    for loc in ("query", "header"):
+        ps = [p for p in (d.get("params") or []) if p["loc"] == loc]
+        if ps:
+            out.append({"at": ["PqRequest", loc], "kind": loc, "comp": None, "inline": False,
+                        "fields": [{"name": p["name"], "k": "m", "m": p["m"]} for p in ps], "deny": False, "ann": {}})
+    return out
+
+
+# ---- C16: documents with several inline-object sites (same shape, different limits) ----
+def _valid_site_schema(site):
+    fn = [f["name"] for f in site["fields"]]
+    if fn != sorted(set(fn)) or not all(_re.fullmatch(r"[a-z][a-z0-9_]*", x) for x in fn):
+        raise ValueError("fields must be sorted, distinct snake_case")
+    if any(f["s"]["k"] not in ("prim", "arrP") for f in site["fields"]):
+        raise ValueError("sites hold leaf members only")
+    o = {"type": "object", "properties": {f["name"]: fs_schema(f["s"]) for f in site["fields"]}}
+    req = [f["name"] for f in site["fields"] if f["req"]]
+    if req:
+        o["required"] = req
+    for k, v in (site.get("ann") or {}).items():
+        o[k] = v
+    return o
+
+
+def valid_sites_spec(d):
+    """d: {comps: [{name, usage: req|resp|both, fields: [{name, wrap: plain|array, req, ann?, fields: [{name, req, s}]}]}]}
+    every component is used by its own operation `op<Name>` as its usage says"""
+    s = {"openapi": "3.1.0", "info": {"title": "t", "version": "1"}, "paths": {}, "components": {"schemas": {}}}
+    ref = lambda n: {"$ref": "#/components/schemas/" + n}
+    names = [c["name"] for c in d["comps"]]
+    if names != sorted(set(names)):
+        raise ValueError("components must be sorted and distinct")
+    for c in d["comps"]:
+        fn = [f["name"] for f in c["fields"]]
+        if fn != sorted(set(fn)):
+            raise ValueError("members must be sorted and distinct")
+        o = {"type": "object", "properties": {}}
+        for f in c["fields"]:
+            sch = _valid_site_schema(f)
+            o["properties"][f["name"]] = {"type": "array", "items": sch} if f.get("wrap") == "array" else sch
+        req = [f["name"] for f in c["fields"] if f.get("req")]
+        if req:
+            o["required"] = req
+        s["components"]["schemas"][c["name"]] = o
+        u = c["usage"]
+        if u not in ("req", "resp", "both"):
+            raise ValueError("usage")
+        op = {"operationId": "op" + c["name"], "responses": {"200": {"description": "ok"}}}
+        if u in ("req", "both"):
+            op["requestBody"] = {"required": True, "content": {"application/json": {"schema": ref(c["name"])}}}
+        if u in ("resp", "both"):
+            op["responses"]["200"]["content"] = {"application/json": {"schema": ref(c["name"])}}
+        s["paths"]["/" + c["name"].lower()] = {"post": op}
+    return s
+
+
+def valid_sites_list(d):
+    """[{at: [component, member], usage, key: the site's own object schema, fields}] in walk order"""
+    return [{"at": [c["name"], f["name"]], "usage": c["usage"], "key": _valid_site_schema(f), "fields": f["fields"]}
+            for c in d["comps"] for f in c["fields"]]
